@@ -230,6 +230,37 @@ Section Store.
         | Some cont => Some (cont, mdst)
         end
     end.
+  (* ---- accessor policy as an explicit component of a view: access(handle, i) designates a storage cell.
+     mdspan::operator[](i...) = accessor_.access(data_handle_, mapping_(i...)).  default_accessor: handle + i. *)
+  Definition c14_accessor := Z -> Z -> Z.
+  Definition c14_default_acc : c14_accessor := fun h i => h + i.
+  Definition c14_view_cell (acc : c14_accessor) (h : Z) (m : c14_mapping) (idx : list Z) : Z := acc h (c14_map m idx).
+  Definition c14_view_get (store : list T) (acc : c14_accessor) (h : Z) (m : c14_mapping) (idx : list Z) : option T :=
+    c14_get store (c14_view_cell acc h m idx).
+  (* init_from_mdspan with the source read through its accessor: container_[mapping_(ii...)] = other[{ii...}] *)
+  Fixpoint c14_copy_loop_acc (cont : list T) (mdst : c14_mapping) (store : list T) (acc : c14_accessor) (h : Z)
+           (msrc : c14_mapping) (tuples : list (list Z)) : option (list T) :=
+    match tuples with
+    | [] => Some cont
+    | idx :: rest =>
+        match c14_view_get store acc h msrc idx with
+        | None => None
+        | Some v => match c14_mdarray_set cont mdst idx v with
+                    | None => None
+                    | Some cont' => c14_copy_loop_acc cont' mdst store acc h msrc rest
+                    end
+        end
+    end.
+  Definition c14_mdarray_from_mdspan_acc (dflt : T) (l : c14_layout) (store : list T) (acc : c14_accessor) (h : Z)
+             (msrc : c14_mapping) : option (list T * c14_mapping) :=
+    match c14_relayout l msrc with
+    | None => None
+    | Some mdst =>
+        match c14_copy_loop_acc (repeat dflt (Z.to_nat (c14_md_size msrc))) mdst store acc h msrc (c14_tuples (c14_ext msrc)) with
+        | None => None
+        | Some cont => Some (cont, mdst)
+        end
+    end.
 End Store.
 
 (* ------------------------------------------------------------------ swap / assignment of views and arrays *)
